@@ -9,7 +9,7 @@ Rep(l, p, b, m) == [kind |-> "reply", leap |-> l, refPos |-> p, b |-> b, refMatc
 \* replay configurations: bounds in nanoseconds that chrony's wire format carries exactly (k * 2^-7 s)
 BoundsR == {23437500, 54687500}
 RepR == { Rep(1, "fresh", b, m) : b \in BoundsR, m \in BOOLEAN } \cup
-        { Rep(3, "fresh", 23437500, TRUE), Rep(3, "fresh", 23437500, FALSE), Rep(0, "stale", 23437500, FALSE), Rep(4, "fresh", 23437500, FALSE), Rep(2, "future", 23437500, TRUE) }
+        { Rep(3, "fresh", 23437500, TRUE), Rep(3, "fresh", 23437500, FALSE), Rep(0, "stale", 23437500, FALSE), Rep(4, "fresh", 23437500, FALSE), Rep(2, "future", 23437500, TRUE), Rep(3, "future", 23437500, FALSE) }
 RepQ == { Rep(1, "fresh", b, m) : b \in BoundsQ, m \in BOOLEAN } \cup
-        { Rep(3, "fresh", 3, TRUE), Rep(3, "fresh", 3, FALSE), Rep(0, "stale", 3, FALSE), Rep(4, "fresh", 3, FALSE), Rep(2, "future", 3, TRUE) }
+        { Rep(3, "fresh", 3, TRUE), Rep(3, "fresh", 3, FALSE), Rep(0, "stale", 3, FALSE), Rep(4, "fresh", 3, FALSE), Rep(2, "future", 3, TRUE), Rep(3, "future", 3, FALSE) }
 =============================================================================
